@@ -105,6 +105,9 @@ func verifHarness_C12_groups() {
 		}, hh...)
 		checkRestored("/"+g1, len(in1), in1)
 		add(r.GET("/p4", verifNop), "/"+g1+"/p4", in1)
+		// a pre-built route that already carries its own middleware
+		p8h, p8 := v.mk(&next, 1+d, 0)
+		add(r.AddRoute(NewRoute("/p8", verifNop, "GET").Use(p8h...)), "/"+g1+"/p8", in1, p8)
 		jh, jids := v.mk(&next, j, 0)
 		r.Group("/s", func() {
 			add(r.GET("/p5", verifNop), "/"+g1+"/s/p5", in1, jids)
